@@ -336,7 +336,32 @@ fn atom(base: Base) -> BoxedStrategy<Pred> {
     .boxed()
 }
 
+/// Two-sided range on one numeric property of the scanned variable, bounds in either textual order and of either
+/// strictness, literals from the data's own small domain (a stored value often sits exactly on a bound): the shape
+/// the planner's BETWEEN / range path recognises.
+fn range2(base: Base) -> BoxedStrategy<Pred> {
+    (
+        var(base),
+        num_prop(),
+        prop_oneof![Just(CmpOp::Lt), Just(CmpOp::Le)],
+        prop_oneof![Just(CmpOp::Gt), Just(CmpOp::Ge)],
+        -3i8..=6,
+        -3i8..=6,
+        any::<bool>(),
+    )
+        .prop_map(|(v, p, up, lo, a, b, upper_first)| {
+            let u = Pred::Cmp(Num::Prop(v, p), up, Num::Lit(a));
+            let l = Pred::Cmp(Num::Prop(v, p), lo, Num::Lit(b));
+            if upper_first { Pred::And(Box::new(u), Box::new(l)) } else { Pred::And(Box::new(l), Box::new(u)) }
+        })
+        .boxed()
+}
+
 pub fn pred(base: Base) -> BoxedStrategy<Pred> {
+    prop_oneof![9 => pred_tree(base), 2 => range2(base)].boxed()
+}
+
+fn pred_tree(base: Base) -> BoxedStrategy<Pred> {
     atom(base)
         .prop_recursive(3, 8, 2, |inner| {
             prop_oneof![
@@ -374,7 +399,7 @@ pub fn pred_gql(base: Base) -> BoxedStrategy<Pred> {
             ]
         })
         .boxed();
-    prop_oneof![17 => sub, 3 => pred(base)].boxed()
+    prop_oneof![15 => sub, 3 => pred(base), 3 => range2(base)].boxed()
 }
 
 /// Is `p` a bare `property <ordering op> literal` (either side) whose literal's numeric type (Int /
